@@ -24,11 +24,14 @@ Record lcase := LCase {
   l_sni : str;
   l_ip : str;
   l_conn : bool;                   (* hello.Conn != nil *)
+  l_abort : bool;                  (* the "tls_get_certificate" event handler returns an error *)
+  l_protos : list str;             (* hello.SupportedProtos *)
   l_policy : policy;               (* Config.CertSelection: none, or one of the harness doubles *)
   l_envx : envx;                   (* IDNA form of the server name, storage content, eviction victim *)
   l_stored_complete : amap bool;   (* per stored certificate (by hash): chain and key present *)
   l_obs : obs;
-  l_post : state                   (* both cache maps after the call *)
+  l_post : state;                  (* both cache maps after the call *)
+  l_amc : list hash                (* Cache.AllMatchingCertificates(normalised server name), before the call *)
 }.
 
 Inductive case :=
@@ -56,7 +59,7 @@ Section Run.
   Definition validf (c : lcase) : hash -> bool := fun h => at_valid (attr_get (l_attrs c) h).
   Definition self (c : lcase) : state -> name -> option cert := sel_policy (supf c) (validf c) (l_policy c).
 
-  Definition run_lookup (c : lcase) : result * state :=
+  Definition run_lookup_x (c : lcase) : result * state :=
     lookup_x lower is_space (self c) (l_conn c) (l_state c) (l_cap c) (l_cfg c) (l_sni c) (l_ip c) (l_envx c).
 
   (** the index names tried for a match, in order of preference *)
@@ -99,7 +102,7 @@ Section Run.
     end.
 
   (** the property, evaluated on an observation *)
-  Definition spec_lookup_o (c : lcase) (o : obs) : bool :=
+  Definition spec_lookup_x_o (c : lcase) (o : obs) : bool :=
     let s := l_state c in
     let n := normalize lower is_space (l_sni c) in
     let good h := supf c h && validf c h in
@@ -147,20 +150,48 @@ Section Run.
         end
     end.
 
-  Definition spec_lookup (c : lcase) : bool := spec_lookup_o c (l_obs c).
+
+
+  (** the two public views agree: with the default policy a matched answer (server name given) is
+      one of the certificates Cache.AllMatchingCertificates reports for the normalised name *)
+  Definition spec_amc_x_o (c : lcase) (o : obs) (amc : list hash) : bool :=
+    match l_policy c, o with
+    | PDefault, OCert h _ =>
+        match first_listed (l_state c) (match_names c) with
+        | Some _ => is_nil (normalize lower is_space (l_sni c)) || mem_str h amc
+        | None => true
+        end
+    | _, _ => true
+    end.
+  Definition amc_of (c : lcase) : list hash :=
+    map c_hash (all_matching (l_state c) (normalize lower is_space (l_sni c))).
 
   (** the cache around the call: the C12 invariant holds before and after, within capacity, and
       only the almost-full branch touches it *)
   Definition case_certs (c : lcase) : list cert :=
     map snd (cache (l_state c)) ++ map (fun kv => sd_cert (snd kv)) (x_storage (l_envx c)).
-  Definition spec_cache_p (c : lcase) (post : state) : bool :=
+  Definition spec_cache_x_p (c : lcase) (post : state) : bool :=
     let nm := names_of_pool (case_certs c) in
     let bn := dedup (flat_map c_names (case_certs c)) in
     let bh := dedup ([] :: map c_hash (case_certs c)) in
     let ok st := inv_b nm (l_cap c) (state_names bn st) (state_hashes bh st) st in
     ok (l_state c) && ok post &&
     (almost_full (l_cap c) (length (cache (l_state c))) || state_eqb (l_state c) post).
-  Definition spec_cache (c : lcase) : bool := spec_cache_p c (l_post c).
+
+
+  (** ---- the whole of GetCertificate: the two branches before the lookup ---- *)
+  Definition pre_branch (c : lcase) : bool := l_abort c || acme_tls_alpn (l_sni c) (l_protos c).
+  Definition run_lookup (c : lcase) : result * state :=
+    get_certificate lower is_space (self c) (l_abort c) (l_protos c) (l_conn c) (l_state c) (l_cap c)
+                    (l_cfg c) (l_sni c) (l_ip c) (l_envx c).
+  (** an aborted handshake and a TLS-ALPN challenge handshake without a challenge in progress must
+      fail (never a certificate of the cache) and leave the cache alone *)
+  Definition spec_lookup_o (c : lcase) (o : obs) : bool :=
+    if pre_branch c then match o with OErr => true | _ => false end else spec_lookup_x_o c o.
+  Definition spec_amc_o (c : lcase) (o : obs) (amc : list hash) : bool :=
+    pre_branch c || spec_amc_x_o c o amc.
+  Definition spec_cache_p (c : lcase) (post : state) : bool :=
+    spec_cache_x_p c post && (negb (pre_branch c) || state_eqb (l_state c) post).
 End Run.
 
 (** MatchWildcard's specification: with lower-cased arguments it is [covers] -- for subjects
@@ -207,10 +238,12 @@ Definition get_case : dec case :=
      t <- get_tbls ;;
      cap <- get_nat ;; s <- get_state ;; at_ <- get_list (get_pair get_str get_attr) ;;
      d <- get_str ;; f <- get_str ;; sni <- get_str ;; ip <- get_str ;; conn <- get_bool ;;
+     ab <- get_bool ;; pr <- get_list get_str ;;
      pol <- get_policy ;; idna <- get_opt get_str ;; st <- get_list get_stored ;;
      br <- get_list get_str ;; v <- get_opt get_str ;; o <- get_obs ;; post <- get_state ;;
+     amc <- get_list get_str ;;
      ret (KLookup (fst t) (snd t)
-            (LCase cap s at_ (Config d f) sni ip conn pol (EnvX idna (map fst st) br v) (map snd st) o post))
+            (LCase cap s at_ (Config d f) sni ip conn ab pr pol (EnvX idna (map fst st) br v) (map snd st) o post amc))
    else if k =? 1 then
      lt <- get_list (get_pair get_n get_n) ;; a <- get_str ;; b <- get_str ;; o <- get_bool ;;
      ret (KMatch lt a b o)
@@ -229,8 +262,9 @@ Definition check_case (k : case) : Z :=
       let lower := tbl_lower lt in
       let is_space := tbl_space st in
       let (r, post) := run_lookup lower is_space c in
-      code (result_eqb r (l_obs c) && state_eqb post (l_post c))
-           (spec_lookup lower is_space c && spec_cache c)
+      code (result_eqb r (l_obs c) && state_eqb post (l_post c) && strs_eqb (amc_of lower is_space c) (l_amc c))
+           (spec_lookup_o lower is_space c (l_obs c) && spec_cache_p c (l_post c) &&
+            spec_amc_o lower is_space c (l_obs c) (l_amc c))
   | KMatch lt a b o =>
       let lower := tbl_lower lt in
       code (Bool.eqb (match_wildcard lower a b) o) (spec_match lower a b o)
@@ -262,8 +296,8 @@ Definition explain_line (l : list Z) : list Z :=
        | ROk x => 1%Z :: put_str (c_hash x)
        end) ++
       [(-1)%Z; if state_eqb (snd (run_lookup (tbl_lower lt) (tbl_space st) c)) (l_post c) then 0%Z else 1%Z;
-       if spec_lookup (tbl_lower lt) (tbl_space st) c then 0%Z else 2%Z;
-       if spec_cache c then 0%Z else 2%Z;
+       if spec_lookup_o (tbl_lower lt) (tbl_space st) c (l_obs c) then 0%Z else 2%Z;
+       if spec_cache_p c (l_post c) then 0%Z else 2%Z;
        Z.of_nat (length (cache (snd (run_lookup (tbl_lower lt) (tbl_space st) c))))]
   | Some (KMatch lt a b o) => [if match_wildcard (tbl_lower lt) a b then 1%Z else 0%Z]
   | Some (KNorm lt st s o) => put_str (normalize (tbl_lower lt) (tbl_space st) s)
